@@ -59,6 +59,10 @@ def scenario(rng, k):
     if rng.random() < 0.3:
         # the sources moved on: a task with recorded versions is not an experiment (not archivable) any more
         steps.append({"cmd": "retype", "task": rng.choice(["//:a", "//pk:b", "//pk/sub:c", "//:d"]), "kind": "run_command"})
+    if rng.random() < 0.2:
+        # somebody freed disk space by hand: the directory of a recorded version is gone when the archive is made
+        steps.append({"cmd": "plant", "entries": [{"path": "cond-out/" + rng.choice(["a.task.100", "d.task.100", "pk/b.task.101", "a.task.150",
+                                                                                 "pk/sub/c.task.102", "d.task.103"]), "kind": "remove"}]})
     task = rng.choice(TARGETS)
     latest = rng.random() < 0.5
     if foreign and rng.random() < 0.6:
